@@ -33,6 +33,7 @@
     through the same queries; the invariant (incl. its cache clause) is executed on every stream state. *)
 From Ark Require Import Model.Base Model.Mask Model.Pool Model.Util Model.World Model.Run.
 From Ark Require Import Proofs.WF Proofs.StorageA Proofs.CacheProofs Proofs.StorageC Proofs.StorageD Proofs.Rel2Defs Proofs.Rel2Cache Properties.Common.
+From Ark Require Import Proofs.Rel2Hist Proofs.Rel2HistQ.
 
 Theorem C05_register_fills_exact : forall s fi f, St s -> nth_error (w_filters s) fi = Some f -> f_cache f = None ->
   match filter_register fi s with
@@ -106,7 +107,26 @@ Theorem C05_rel_tabled_is_an_invariant : forall s f, archs_tabled_norel s -> r2k
 Proof. intros s f H aid a Ha _ Hn. exact (H aid a Ha Hn). Qed.
 Definition C05_rel_examples := (r2k_ex_values, r2k_ex_shapes, r2k_ex_apply, r2k_fuzz_1, r2k_untabled_refutes, r2k_nonrel_refutes).
 
-Definition C05_all := (C05_cache_exact_after_every_history, C05_rel_cached_tables_exact, C05_rel_batch_selection_same, C05_rel_count_same,
+
+(** ** The hypotheses of the cached = uncached theorems hold in every reachable state (Rel2HistQ): after every
+    history of the class with filters, Register / Unregister, queries, table creation, freeing (Shrink, target
+    removal) and recycling, the invariant St2 - which contains the exactness of every cache entry, [CacheInv] -
+    holds, and every filter object satisfies the side conditions of [C05_rel_cached_tables_exact]. *)
+Theorem C05_rel_cache_exact_after_every_history : forall c lines,
+  cfg_ok2 c -> Forall (rel_q_line (sc_kinds c)) lines -> length lines + 4 < Nat.pow 2 31 ->
+  St2 (Properties.Common.exec c lines) /\ CacheInv (Properties.Common.exec c lines).
+Proof.
+  intros c lines Hc Hl Hb. destruct (reachable_inv2Q c lines Hc Hl Hb) as (HS & _).
+  split; [exact HS|exact (proj2 (proj2 HS))].
+Qed.
+
+Theorem C05_rel_filters_ok_after_every_history : forall c lines fi f,
+  cfg_ok2 c -> Forall (rel_q_line (sc_kinds c)) lines -> length lines + 4 < Nat.pow 2 31 ->
+  nth_error (w_filters (Properties.Common.exec c lines)) fi = Some f ->
+  r2k_rels_ok (Properties.Common.exec c lines) (f_mask f) (f_rels f) /\ r2k_tabled (Properties.Common.exec c lines) f.
+Proof. exact reachable_filters_ok. Qed.
+
+Definition C05_all := (C05_rel_cache_exact_after_every_history, C05_rel_filters_ok_after_every_history, C05_cache_exact_after_every_history, C05_rel_cached_tables_exact, C05_rel_batch_selection_same, C05_rel_count_same,
   C05_rel_entities_same, C05_rel_iteration_same, C05_rel_entity_at_same, C05_rel_only_difference_is_a_missing_table,
   C05_rel_tabled_is_an_invariant, C05_rel_examples,
   C05_register_fills_exact, C05_table_creation_step_exact, C05_cache_invariant_preserved_by_table_creation,
